@@ -3335,6 +3335,11 @@ static Node *primary(Token **rest, Token *tok) {
     tok = skip(tok, ",");
     node->rhs = assign(&tok, tok);
     *rest = skip(tok, ")");
+
+    // The old value of a struct or union needs a place to live in.
+    add_type(node);
+    if (node->ty->kind == TY_STRUCT || node->ty->kind == TY_UNION)
+      node->ret_buffer = new_lvar("", node->ty);
     return node;
   }
 
